@@ -17,6 +17,16 @@ CHECKS = {
             'CPython is the reference; coverage is bounded by the grammar (nesting <= 4, ~26 statements, ints/lists/one object/one dict). '
             'Holds on the programs executed, not beyond.',
             'DESIGN.md 3/C01'),
+    'C02': ('exploration',
+            'tracing-style operator backend injected into the real ag__ module; differential against native execution',
+            'The real converted function runs with if_stmt/while_stmt/for_stmt replaced by a backend that touches variables only '
+            'through get_state/set_state: both branches traced from the same state, non-outputs poisoned, loop bodies traced once '
+            'out of band (also for zero-trip loops) and the carried state re-injected before every test and body. The result is '
+            'compared with the unconverted function. All skeletons over {if, if/else, while, for} x {break, continue, return} with '
+            'every decision vector plus random pure programs.',
+            'Programs are pure and total by construction (checked: originals that raise are not judged); every variable, including '
+            'loop counters, exists before the control-flow statement that assigns it (documented staging limitation).',
+            'DESIGN.md 3/C02'),
     'C03': ('exploration',
             'contract monitor wrapped around the real ag__ operators, judging every dynamic invocation',
             'Every if_stmt/while_stmt/for_stmt/if_exp/and_/or_/not_ call made by real generated code is intercepted: name/getter/'
@@ -25,6 +35,20 @@ CHECKS = {
             'options against the directives the generator placed. Then the real operator runs.',
             'Trusts frame evaluation of names (eval in f_globals/f_locals of the generated frame). Sentinel probe skipped when a composite entry is Undefined.',
             'DESIGN.md 3/C03'),
+    'C11': ('exploration',
+            'differential execution with adversarial identifiers + recorder on the real Namer.new_symbol',
+            'Programs whose identifiers are the converter vocabulary in every role (random stream + 10 role templates x 45 names) '
+            'are converted and run differentially; every name the real Namer hands out while function F is being converted is '
+            'checked against the identifiers of F (CPython parser) and F namespace. Every name root must have been requested at least once.',
+            'Identifier set taken from ast.parse of inspect.getsource(F).',
+            'DESIGN.md 3/C11'),
+    'C17': ('exploration',
+            'capture of the real transform_ast output and loaded module text; checked with CPython compile/parse and a context walker',
+            'For every conversion (top-level and recursively converted callees) the transformed tree is checked for shared node '
+            'objects, context/position agreement, compilability, and unparse/parse round-trip identity; to_code text is compared '
+            'with the text of the function in the module file actually loaded.',
+            'Interpreter-wide ast singletons excluded from the sharing check; annotation fields ignored.',
+            'DESIGN.md 3/C17'),
     'C20': ('exploration',
             'exhaustive enumeration of the option space with an executing-code probe',
             'All 1024 option values are built in every spelling, round-tripped through the source form the '
